@@ -4,7 +4,7 @@ import statuslib
 from statuslib import coq_term
 
 PID = "C15"
-TARGETS = ["Run.vo", "Contrib_proofs.vo", "ContribMeaning_proofs.vo"]
+TARGETS = ["Run.vo", "Contrib_proofs.vo", "ContribMeaning_proofs.vo", "NonVacuous/C15.vo"]
 IMPORTS = "From VF Require Import Base Show Gen_Errors Status Contrib Run."
 ALLOWED_AXIOMS = []
 PROFILES = ["debug"]
